@@ -98,11 +98,37 @@ fn timeout_error() -> String {
 
 /// One grid point: returns (observation summary, violations as (sub, message)).
 async fn timeout_case(c: Option<u64>, ok: bool, d: u64, p: u64, token: u32) -> (serde_json::Value, String, Vec<(String, String)>) {
+    timeout_case_dur(c, ok, Duration::from_millis(d * UNIT_MS), p, token).await
+}
+
+/// Durations far beyond any horizon ("effectively no timeout" as callers write it).
+fn huge_durations() -> Vec<(&'static str, Duration)> {
+    vec![
+        ("Duration::MAX", Duration::MAX),
+        ("u64::MAX s", Duration::from_secs(u64::MAX)),
+        ("i64::MAX s", Duration::from_secs(i64::MAX as u64)),
+        ("2^62 s", Duration::from_secs(1 << 62)),
+        ("2^40 s", Duration::from_secs(1 << 40)),
+        ("100 years", Duration::from_secs(100 * 365 * 86400)),
+        ("u64::MAX ns", Duration::from_nanos(u64::MAX)),
+        ("u64::MAX ms", Duration::from_millis(u64::MAX)),
+    ]
+}
+
+async fn timeout_case_dur(c: Option<u64>, ok: bool, dur: Duration, p: u64, token: u32) -> (serde_json::Value, String, Vec<(String, String)>) {
+    let d: u64 = u64::try_from(dur.as_millis() / UNIT_MS as u128).unwrap_or(u64::MAX);
     let base = tokio::time::Instant::now();
     let log = Rc::new(RefCell::new(Log::default()));
     let svc = Svc { complete_at: c, ok, base, log: log.clone() };
-    let mut timed = TimeoutLayer::new(timeout_error, Duration::from_millis(d * UNIT_MS)).layer(svc);
-    let fut = timed.call(token); // issued at t=0
+    let mut timed = TimeoutLayer::new(timeout_error, dur).layer(svc);
+    // issued at t=0; issuing must not panic either
+    let fut = match std::panic::catch_unwind(std::panic::AssertUnwindSafe(|| timed.call(token))) {
+        Ok(f) => f,
+        Err(_) => {
+            let obs = json!({"inner_completes_at": c, "inner_ok": ok, "duration": format!("{dur:?}"), "first_poll": p, "outcome": "panic-at-call"});
+            return (obs, "panic".into(), vec![("no result by the deadline (hang or panic)".into(), format!("issuing a request with timeout {dur:?} panicked (inner completes at {c:?})"))]);
+        }
+    };
     tokio::time::sleep(Duration::from_millis(p * UNIT_MS)).await; // caller polls first at t=p
     let horizon = tokio::time::timeout(Duration::from_millis(100 * UNIT_MS), fut);
     let mut horizon = Box::pin(horizon);
@@ -125,6 +151,10 @@ async fn timeout_case(c: Option<u64>, ok: bool, d: u64, p: u64, token: u32) -> (
     let mut fail = |what: &str| {
         v.push((what.to_string(), format!("{what}: inner completes at {c:?} ({}), duration {d}, first poll at {p}: got {outcome} at t={t_r}; inner polls {:?}, dropped at {:?}", if ok { "Ok" } else { "Err" }, l.polls, l.dropped_at)));
     };
+    if outcome == "hang" && c.is_none() && d > 100 {
+        // nothing is due before the harness horizon: still pending is the right answer
+        return (obs, outcome, v);
+    }
     if outcome == "panic" || outcome == "hang" {
         fail("no result by the deadline (hang or panic)");
         return (obs, outcome, v);
@@ -160,7 +190,7 @@ async fn timeout_case(c: Option<u64>, ok: bool, d: u64, p: u64, token: u32) -> (
 
 fn case_sig(c: Option<u64>, d: u64, p: u64, what: &str) -> String {
     let rel = match c { None => "never", Some(c) if c < d => "before", Some(c) if c == d => "at", _ => "after" };
-    format!("inner={rel} duration={} first-poll={} problem={what}", if d == 0 { "zero" } else { "finite" }, if p == 0 { "immediate" } else if p > d { "after-deadline" } else { "delayed" })
+    format!("inner={rel} duration={} first-poll={} problem={what}", if d == 0 { "zero" } else if d > 1_000_000 { "huge" } else { "finite" }, if p == 0 { "immediate" } else if p > d { "after-deadline" } else { "delayed" })
 }
 
 fn replay(path: &str) -> i32 {
@@ -174,8 +204,12 @@ fn replay(path: &str) -> i32 {
     let d = rp.get("duration").and_then(|x| x.as_u64()).unwrap_or(0);
     let p = rp.get("first_poll").and_then(|x| x.as_u64()).unwrap_or(0);
     let rt = tokio::runtime::Builder::new_current_thread().enable_time().start_paused(true).build().unwrap();
-    let (o1, _, v1) = rt.block_on(timeout_case(c, ok, d, p, 7));
-    let (o2, _, v2) = rt.block_on(timeout_case(c, ok, d, p, 7));
+    let dur = match rp.get("duration_huge").and_then(|x| x.as_str()) {
+        Some(name) => huge_durations().into_iter().find(|(n, _)| *n == name).map(|(_, d)| d).unwrap_or(Duration::MAX),
+        None => Duration::from_millis(d * UNIT_MS),
+    };
+    let (o1, _, v1) = rt.block_on(timeout_case_dur(c, ok, dur, p, 7));
+    let (o2, _, v2) = rt.block_on(timeout_case_dur(c, ok, dur, p, 7));
     if o1 != o2 || v1 != v2 {
         println!("MACHINERY-ERROR replay diverged");
         return 2;
@@ -223,10 +257,26 @@ pub fn run(args: &Args) -> i32 {
                 }
             }
         }
+        // durations beyond any horizon: the inner result must come back unchanged, nothing may panic
+        for (name, dur) in huge_durations() {
+            for &c in &completes {
+                for ok in [true, false] {
+                    for &p in &[0u64, 2] {
+                        evaluations += 1;
+                        let (_obs, outcome, viols) = timeout_case_dur(c, ok, dur, p, 5000 + evaluations as u32).await;
+                        classes.insert(format!("huge|{}|{}", outcome.split(':').next().unwrap(), c.is_some()));
+                        let d = u64::try_from(dur.as_millis() / UNIT_MS as u128).unwrap_or(u64::MAX);
+                        for (what, msg) in viols {
+                            run.violation(case_sig(c, d, p, &what), msg, json!({"engine":"c19","complete_at":c,"ok":ok,"duration_huge":name,"first_poll":p}));
+                        }
+                    }
+                }
+            }
+        }
     });
     run.cov("evaluations", evaluations);
     run.cov("distinct_nontrivial", classes.len() as u64);
-    run.cov("rule_part1", "part 1: complete grid inner completion time {0,1,2,3,4,6,never} x inner result {Ok,Err} x duration {0,1,2,3,5} x caller's first poll {0,1,2,4} (units of 10ms, paused tokio clock) through the real TimeoutLayer; distinct = (outcome kind, is-timeout, inner vs deadline order)");
+    run.cov("rule_part1", "part 1: complete grid inner completion time {0,1,2,3,4,6,never} x inner result {Ok,Err} x duration {0,1,2,3,5} x caller's first poll {0,1,2,4} (units of 10ms, paused tokio clock) through the real TimeoutLayer, plus durations beyond any horizon {Duration::MAX, u64::MAX s, i64::MAX s, 2^62 s, 2^40 s, 100 years, u64::MAX ns, u64::MAX ms} x inner completion x result x first poll {0,2}; distinct = (outcome kind, is-timeout, inner vs deadline order)");
     run.cov("exhaustive", true);
     run.cov("samples", samples);
     run.assume("a future cannot resolve before it is polled: with the first poll at p the deadline is observed at max(duration,p); inner result is accepted iff it completed by then");
